@@ -2,6 +2,8 @@ package rules
 
 import (
 	"go/types"
+	"strings"
+	"text/template/parse"
 	"verif/internal/core"
 	"verif/internal/tmpl"
 )
@@ -78,4 +80,52 @@ func DumpSkeleton(c *core.Ctx, id string) {
 			println(v.Src)
 		}
 	}
+}
+
+// templateRanges lists the pipelines (as field chains like ".Value.Fields")
+// that range nodes of the template iterate over (top-level data only).
+func templateRanges(t *tmpl.Template) []string {
+	var out []string
+	var walk func(n parse.Node, inRange bool)
+	walk = func(n parse.Node, inRange bool) {
+		switch x := n.(type) {
+		case *parse.ListNode:
+			if x != nil {
+				for _, ch := range x.Nodes {
+					walk(ch, inRange)
+				}
+			}
+		case *parse.IfNode:
+			walk(x.List, inRange)
+			walk(x.ElseList, inRange)
+		case *parse.WithNode:
+			walk(x.List, inRange)
+			walk(x.ElseList, inRange)
+		case *parse.RangeNode:
+			if !inRange && len(x.Pipe.Cmds) == 1 && len(x.Pipe.Cmds[0].Args) == 1 {
+				if f, ok := x.Pipe.Cmds[0].Args[0].(*parse.FieldNode); ok {
+					out = append(out, "."+strings.Join(f.Ident, "."))
+				}
+			}
+			walk(x.List, true)
+			walk(x.ElseList, inRange)
+		}
+	}
+	walk(t.Tree.Root, false)
+	return out
+}
+
+// chainType resolves the static Go type of a field chain of the template data.
+func chainType(t *tmpl.Template, chain string) string {
+	typ := t.DataType
+	for _, p := range strings.Split(strings.TrimPrefix(chain, "."), ".") {
+		if p == "" {
+			continue
+		}
+		typ = fieldOrMethodType(typ, p)
+		if typ == nil {
+			return ""
+		}
+	}
+	return typ.Underlying().String()
 }
